@@ -26,6 +26,7 @@ type Env struct {
 	inLoop *Loop
 	post   bool // translating a postcondition: parameters denote entry values
 	cur    *State // under pre(): the real current state, in which local variables are read
+	freshBase string // allocation counter before the call / at function entry (for fresh())
 }
 
 func (e *Env) child() *Env {
@@ -668,6 +669,20 @@ func (e *Env) call(n *CCall) Val {
 		return Val{S: app("chr", e.trI(n.Args[0])), Sort: "Str", T: types.Typ[types.String]}
 	case "itoa":
 		return Val{S: app("itoa", e.trI(n.Args[0])), Sort: "Str", T: types.Typ[types.String]}
+	case "fresh":
+		// fresh(x): x points to (is a slice over) an object allocated by this call
+		v := e.tr(n.Args[0])
+		base := e.freshBase
+		if base == "" {
+			base = "fresh0"
+		}
+		switch v.Sort {
+		case "Addr":
+			return boolV(sand(snot(app("=", v.S, "anil")), app(">=", app("oid", v.S), base)))
+		case "Slice":
+			return boolV(app("=>", snot(app("=", app("sarr", v.S), "anil")), app(">=", app("oid", app("sarr", v.S)), base)))
+		}
+		cfail("fresh() of %s", v.Sort)
 	case "isnil":
 		v := e.tr(n.Args[0])
 		return boolV(app("=", v.S, nilOf(v).S))
